@@ -41,6 +41,35 @@ fn check_pair(p: u16, u: u16) -> Result<bool, String> {
     if x != a || y != s {
         return Err(format!("in-place operators disagree with the pure ones for Pid({}) and {}: += {} vs {}, -= {} vs {}", p, u, x.value(), a.value(), y.value(), s.value()));
     }
+    // the same operations spelled the other ways application code spells them: method-call syntax and type-qualified
+    // paths with the operator traits in scope (whatever these resolve to, they are "adding" and "subtracting")
+    {
+        use std::ops::{Add, AddAssign, Sub, SubAssign};
+        let forms: [(&str, Pid, Pid); 6] = [
+            ("pid.add(n)", pid.add(u), a),
+            ("Pid::add(pid, n)", Pid::add(pid, u), a),
+            ("<Pid as Add<u16>>::add(pid, n)", <Pid as Add<u16>>::add(pid, u), a),
+            ("pid.sub(n)", pid.sub(u), s),
+            ("Pid::sub(pid, n)", Pid::sub(pid, u), s),
+            ("<Pid as Sub<u16>>::sub(pid, n)", <Pid as Sub<u16>>::sub(pid, u), s),
+        ];
+        for (how, got, want) in forms {
+            if got != want || got.value() == 0 {
+                return Err(format!("{} with pid = Pid({}), n = {} gives {} but the operator form gives {}", how, p, u, got.value(), want.value()));
+            }
+        }
+        let mut x2 = pid;
+        x2.add_assign(u);
+        let mut y2 = pid;
+        y2.sub_assign(u);
+        let mut x3 = pid;
+        Pid::add_assign(&mut x3, u);
+        let mut y3 = pid;
+        Pid::sub_assign(&mut y3, u);
+        if x2 != a || y2 != s || x3 != a || y3 != s {
+            return Err(format!("add_assign / sub_assign called as methods disagree with + / - for Pid({}) and {}: {} {} {} {} vs {} {}", p, u, x2.value(), y2.value(), x3.value(), y3.value(), a.value(), s.value()));
+        }
+    }
     // non-trivial: the sum or the difference crosses the wrap
     Ok(p as u32 + u as u32 > 65_535 || (u as u32) >= p as u32)
 }
